@@ -25,8 +25,8 @@ NET = [
     ("dir-w4", 4, "TRUE", "TRUE", 0, True),
     ("und-u5", 5, "FALSE", "FALSE", 0, True),
     ("und-w5", 5, "FALSE", "TRUE", 0, False),
-    ("dir-u5s", 5, "TRUE", "FALSE", 1500, False),
-    ("dir-w5s", 5, "TRUE", "TRUE", 1500, False),
+    ("dir-u5s", 5, "TRUE", "FALSE", 4000, False),
+    ("dir-w5s", 5, "TRUE", "TRUE", 4000, False),
 ]
 
 # modularity Q for every partition x gamma: name, N, DIRECTED, WEIGHTED, SAMPLE, quick?
@@ -46,6 +46,9 @@ QCFG = [
 
 def run(ctx):
     thorough = ctx.tier == "thorough"
+    # the machine is shared: TLC's default heap is a quarter of the RAM per process and the JVM fills it
+    # with garbage before collecting; these runs need little memory (a few thousand states each)
+    os.environ.setdefault("JAVA_TOOL_OPTIONS", "-Xmx3g")
     hb = ctx.build("")
 
     # ---- network measures: R1 identities + R2 generator in one TLC run per configuration ----
@@ -65,7 +68,7 @@ def run(ctx):
                  [(lambda a=a: q_stage(*a[:5])) for a in QCFG if a[5] or thorough], width=4)
 
     # ---- Louvain: record real Modularize runs, validate every level with TLC, compare Q --------
-    runs = 60 if thorough else 16
+    runs = 200 if thorough else 16
 
     def louvain_stage(fam):
         tr = os.path.join(ctx.work, "louvain-%s.ndjson" % fam)
